@@ -1908,15 +1908,20 @@ func clFile(ctx *context, args []string, cFile, expFile, pkgPath string, procFil
 		check(err)
 	}
 
-	// Always compile to .o for linking
-	objFile := baseName + ".o"
+	// Always compile to .o for linking.  The object gets a name of its own:
+	// baseName lies in the Go build cache and is the same for every llgo
+	// process that builds this package, whatever its flags are.
+	objTmp, err := os.CreateTemp("", filepath.Base(baseName)+"-*.o")
+	check(err)
+	objFile := objTmp.Name()
+	objTmp.Close()
 	objArgs := append(args, "-o", objFile, "-c", cFile)
 	if printCmds {
 		fmt.Fprintf(os.Stderr, "# compiling %s for pkg: %s\n", objFile, pkgPath)
 		fmt.Fprintln(os.Stderr, "clang", objArgs)
 	}
 	cmd := ctx.compiler()
-	err := cmd.Compile(objArgs...)
+	err = cmd.Compile(objArgs...)
 	check(err)
 	procFile(objFile)
 }
